@@ -26,7 +26,11 @@ ReqPem(a, o) == {
   <<"C14.canonical_padding", o.pad = Pad(a.derLen) /\ o.strictErr = "">>,
   <<"C14.lf_only", ~o.hasCr>>,
   <<"C14.strict_decode_eq_der_accessor", o.strictErr = "" /\ o.decodedLen = a.derLen /\ o.decodedHexSha = a.derSha>>,
-  <<"C14.own_loader_roundtrip", o.loaderEq \in {"yes", "na"}>>
+  <<"C14.own_loader_roundtrip", o.loaderEq \in {"yes", "na"}>>,
+  (* every PEM loader of rcgen, told the key's own algorithm where it asks for one, recovers the same bytes *)
+  <<"C14.every_own_loader_recovers_bytes", \A i \in DOMAIN o.loaders : o.loaders[i].k = "ok" /\ o.loaders[i].sameBytes /\ o.loaders[i].samePub>>,
+  (* a text exists only where the corresponding DER accessor yields bytes *)
+  <<"C14.text_has_der_accessor", a.derAvail>>
   }
 
 (* implementation-shaped: pem crate with 64-column wrapping and LF; variants for the self-test *)
